@@ -285,6 +285,8 @@ func guardRows(w *World, r *Report, prop string) {
 					r.add("GUARD", key, pos, Undecided, fmt.Sprintf("scenario {%s}: %s, but only past test(s) of the argument the analysis could not evaluate (%s) -- %s", sc, why, abbrev(strings.Join(uniqStrings(e.undecidedOnSubject), "; "), 240), row.Doc))
 				} else if esc := subjectEscapes(f, sc); esc != "" {
 					r.add("GUARD", key, pos, Undecided, fmt.Sprintf("scenario {%s}: %s; but the argument is also handed to %s, whose checks this exploration does not follow -- %s", sc, why, esc, row.Doc))
+				} else if errAssignedByLiterals(f) {
+					r.add("GUARD", key, pos, Undecided, fmt.Sprintf("scenario {%s}: %s; but the error result is a variable assigned by function literals of %s, whose effect on the returns was not followed -- %s", sc, why, f.Name(), row.Doc))
 				} else {
 					r.add("GUARD", key, pos, Violated, fmt.Sprintf("scenario {%s}: %s -- %s", sc, why, row.Doc))
 				}
@@ -595,6 +597,10 @@ func ruleErrUsed(w *World, r *Report, in map[*ssa.Function]bool) {
 					// the non-nil edge reaches a failure return as well as a success return (a flag
 					// set on the failing edge and tested after the loop): not followed
 					r.Add(Obligation{Rule: "ERRUSED", Key: key, Pos: pos, Status: Undecided, Detail: "parse error is tested, and its non-nil edge can reach failure returns, but not only failure returns (a flag or counter set on that edge?) (" + shortInstr(c) + ")", Canary: can})
+				} else if f.Parent() != nil && errEdgeRecords(f, ee) {
+					// inside a function literal the failure is reported through what it captures (a
+					// named result of the enclosing function, a flag, another closure): not followed
+					r.Add(Obligation{Rule: "ERRUSED", Key: key, Pos: pos, Status: Undecided, Detail: "parse error is tested inside a function literal whose non-nil edge assigns a captured variable or calls another closure (" + shortInstr(c) + ")", Canary: can})
 				} else {
 					r.Add(Obligation{Rule: "ERRUSED", Key: key, Pos: pos, Status: Violated, Detail: "parse error is read but no test of it leads to a failure return on the non-nil edge (" + shortInstr(c) + ")", Canary: can})
 				}
@@ -815,8 +821,72 @@ func (e *scEngine) checkTwoPass(f *ssa.Function, sc scenario) (Status, string) {
 		if esc := subjectEscapes(f, sc); esc != "" {
 			return Undecided, why + "; but the argument is also handed to " + esc + ", whose checks this exploration does not follow"
 		}
+		// the error result is a variable that function literals of f assign (reject :=
+		// func() { err = ... }; if rejectIf(bad) { return }): which returns carry an error depends
+		// on what those literals did, which the exploration does not correlate with the branch
+		if errAssignedByLiterals(f) {
+			return Undecided, why + "; but the error result is a variable assigned by function literals of " + f.Name() + ", whose effect on the returns was not followed"
+		}
 	}
 	return st, why
+}
+
+// errAssignedByLiterals: some return of f hands back, as its error, the current content of a
+// variable that function literals of f assign.
+func errAssignedByLiterals(f *ssa.Function) bool {
+	ei := errResultIndex(f)
+	if ei < 0 {
+		return false
+	}
+	for _, ret := range returnsOf(f) {
+		if ei >= len(ret.Results) {
+			continue
+		}
+		if ld, ok := ret.Results[ei].(*ssa.UnOp); ok && ld.Op == token.MUL {
+			if al, ok := ld.X.(*ssa.Alloc); ok && closureWrites(al) && literalUsedUndeferred(al) {
+				return true
+			}
+		}
+	}
+	return false
+}
+
+// literalUsedUndeferred: a function literal that assigns the variable is used other than in a
+// defer statement (deferred literals run after the return value is set and are handled by the
+// return classification itself).
+func literalUsedUndeferred(al *ssa.Alloc) bool {
+	for _, ref := range *al.Referrers() {
+		mc, ok := ref.(*ssa.MakeClosure)
+		if !ok || mc.Referrers() == nil {
+			continue
+		}
+		fn, _ := mc.Fn.(*ssa.Function)
+		if fn == nil {
+			continue
+		}
+		writes := false
+		for i, b := range mc.Bindings {
+			if b != ssa.Value(al) || i >= len(fn.FreeVars) || fn.FreeVars[i].Referrers() == nil {
+				continue
+			}
+			for _, r2 := range *fn.FreeVars[i].Referrers() {
+				if st, ok := r2.(*ssa.Store); ok && st.Addr == ssa.Value(fn.FreeVars[i]) {
+					writes = true
+				}
+			}
+		}
+		if !writes {
+			continue
+		}
+		for _, use := range *mc.Referrers() {
+			switch use.(type) {
+			case *ssa.Defer, *ssa.DebugRef:
+			default:
+				return true
+			}
+		}
+	}
+	return false
 }
 
 // subjectEscapes: the scenario's argument is captured by a function literal that
@@ -1155,6 +1225,69 @@ func failsAlong(f *ssa.Function, ret *ssa.Return, reach map[*ssa.BasicBlock]bool
 
 // errEdgeCanFail: some nil-test of the error has a non-nil edge from which a
 // failure return (or one whose error cannot be classified) is reachable.
+// errEdgeRecords: the non-nil edge of a test of ev, inside a function literal, stores to a
+// captured variable or calls a closure / function value.
+func errEdgeRecords(f *ssa.Function, ev ssa.Value) bool {
+	for _, ref := range *ev.Referrers() {
+		b, ok := ref.(*ssa.BinOp)
+		if !ok || (b.Op != token.NEQ && b.Op != token.EQL) || !(isNilConst(b.X) || isNilConst(b.Y)) {
+			continue
+		}
+		for _, blk := range f.Blocks {
+			t, fl, i := ifSuccs(blk)
+			if i == nil {
+				continue
+			}
+			neg := false
+			cond := i.Cond
+			if u, ok := cond.(*ssa.UnOp); ok && u.Op == token.NOT {
+				cond, neg = u.X, true
+			}
+			if cond != ssa.Value(b) {
+				continue
+			}
+			nonNil, other := t, fl
+			if (b.Op == token.EQL) != neg {
+				nonNil, other = fl, t
+			}
+			onlyNonNil := reachableFrom(nonNil, nil)
+			for ob := range reachableFrom(other, nil) {
+				delete(onlyNonNil, ob)
+			}
+			for ob := range onlyNonNil {
+				for _, in := range ob.Instrs {
+					switch x := in.(type) {
+					case *ssa.Store:
+						root := x.Addr
+						for {
+							switch a := root.(type) {
+							case *ssa.FieldAddr:
+								root = a.X
+								continue
+							case *ssa.IndexAddr:
+								root = a.X
+								continue
+							}
+							break
+						}
+						if _, isFree := root.(*ssa.FreeVar); isFree {
+							return true
+						}
+					case *ssa.Call:
+						if x.Common().StaticCallee() == nil && builtinName(x) == "" && !x.Common().IsInvoke() {
+							return true
+						}
+						if g := x.Common().StaticCallee(); g != nil && g.Parent() != nil {
+							return true
+						}
+					}
+				}
+			}
+		}
+	}
+	return false
+}
+
 func errEdgeCanFail(f *ssa.Function, e *scEngine, ev ssa.Value) bool {
 	for _, ref := range *ev.Referrers() {
 		b, ok := ref.(*ssa.BinOp)
